@@ -25,6 +25,8 @@ def main():
         subprocess.run(cmd, capture_output=True, text=True, timeout=7200)
         meta = json.load(open(os.path.join(d, "meta.json")))
         row = {p: ("detected" if v["detected"] else f"missed(exit {v['exit']})") for p, v in meta["checks"].items()}
+        if meta["confirmed"].get("demo_exit_with_change") != 1:
+            row["NOTE"] = "demo no longer fails with the change on this HEAD: not a property-breaking change any more"
         out["rows"][sid] = {"breaks": meta["breaks_property"], "confirmed": meta["confirmed"], "checks": row}
         print(sid.ljust(55), row, flush=True)
     with open(os.path.join(VERIF, "selftest", "seeded_matrix_last.json"), "w") as f:
